@@ -19,6 +19,7 @@ SLOW_P = [0.05, 0.1, 0.25, 1.0, 3.0]
 FAST_GAP = [0.0, 0.0005, 0.001, 0.0025, 0.005, 0.01, 0.03]
 SLOW_GAP = [0.0, 0.01, 0.05, 0.1, 0.25, 0.3, 1.0, 3.0, 7.0]
 PROBE_ID = 0x18FF4280   # PDU2 broadcast from source 0x80
+REQUEST_PROBE_ID = 0x18EAFF80   # request to the global address from source 0x80
 
 
 def _ops(regime):
@@ -94,6 +95,9 @@ def _strategy():
             "disp": st.lists(st.sampled_from(EPS_GRID), min_size=1, max_size=3),
             "ops": _ops(r),
             "tail": st.sampled_from([0.02, 0.05] if r == "fast" else [0.3, 1.1, 3.5, 6.0]),
+            # which subscribe/unsubscribe pair the history uses: the ECU's, a controller application's (same stream, filtered by
+            # the CA), or the CA's request stream (subscribe_request / unsubscribe_request; the probes are then PGN requests)
+            "sub_api": st.sampled_from(["ecu", "ecu", "ca", "request"]),
         }))
 
 
@@ -105,7 +109,8 @@ class C12:
             "(periods 1 ms..3 s, one-shot and periodic, duplicate registrations, issued from the application "
             "context, from inside a timer callback or from inside a subscriber callback - also while a delivery to an earlier, "
             "slow subscriber (run time 1..20 ms) is still in flight -, idle gaps 0..7 s, wake-up lateness and dispatch latency "
-            "0..100 us incl. exactly 0) and runs them on a real ECU in virtual time; non-trivial = at least two "
+            "0..100 us incl. exactly 0; the subscribe/unsubscribe pair is the ECU's, a controller application's, or the CA's "
+            "request stream with PGN requests as probes) and runs them on a real ECU in virtual time; non-trivial = at least two "
             "registrations alive at the same instant; distinct = distinct parameter sets")
     ASSUMPTIONS = [
         "callbacks never raise; they take zero virtual time or a generated run time well below half their own period, during "
@@ -144,6 +149,9 @@ class C12:
         st_ = w.stack("S")
         ecu = st_.ecu
         raw = simbus.RawNode(w.bus, "R")
+        api = params.get("sub_api", "ecu")
+        ca = st_.add_ca("c", 0x300, 0x33) if api != "ecu" else None
+        probe_id = REQUEST_PROBE_ID if api == "request" else PROBE_ID
         seq = [0]
         regs = []          # registration records
         subs = []          # subscription records
@@ -182,11 +190,24 @@ class C12:
                 subs.append({"cb": op["cb"], "seq": s, "t": sim.now, "rm": None})
                 if op.get("dur"):
                     sdur[op["cb"]] = op["dur"]
-                ecu.subscribe(scb[op["cb"]])
+                if api == "ecu":
+                    ecu.subscribe(scb[op["cb"]])
+                elif api == "ca":
+                    ca.subscribe(scb[op["cb"]])
+                else:
+                    ca.subscribe_request(rcb[op["cb"]])
                 if cur_probe[0] is not None:
                     probe_dirty.add(cur_probe[0])
             elif kind == "unsub":
-                ecu.unsubscribe(scb[op["cb"]])
+                try:
+                    if api == "ecu":
+                        ecu.unsubscribe(scb[op["cb"]])
+                    elif api == "ca":
+                        ca.unsubscribe(scb[op["cb"]])
+                    else:
+                        ca.unsubscribe_request(rcb[op["cb"]])
+                except ValueError:
+                    pass              # (not registered: list.remove in the request stream says so; nothing to judge)
                 s2 = nxt()
                 for r in subs:
                     if r["cb"] == op["cb"] and r["rm"] is None:
@@ -195,7 +216,10 @@ class C12:
                     probe_dirty.add(cur_probe[0])
             elif kind == "probe":
                 pid = op["_pid"]
-                raw.send(PROBE_ID, [pid & 0xFF, pid >> 8, 0, 0, 0, 0, 0, 0])
+                if api == "request":
+                    raw.send(probe_id, [pid & 0xFF, 0xFF, 0x00])       # request for PGN 0xFF00 + pid, to the global address
+                else:
+                    raw.send(probe_id, [pid & 0xFF, pid >> 8, 0, 0, 0, 0, 0, 0])
 
         def mk_tcb(i):
             def cb(cookie):
@@ -237,6 +261,8 @@ class C12:
 
         tcb = [mk_tcb(i) for i in range(NCB)]
         scb = [mk_scb(i) for i in range(NCB)]
+        # request callbacks: (source, destination, requested PGN) - the probe number travels in the PGN's low byte
+        rcb = [(lambda f: (lambda src, dest, pgn: f(6, 0xEA00, src, 0.0, [pgn & 0xFF, 0])))(scb[i]) for i in range(NCB)]
 
         # sequence numbers at the start and end of the delivery of every probe frame (a delivery may take time and other
         # operations may run meanwhile)
@@ -244,7 +270,7 @@ class C12:
         orig_rx = st_.rx
 
         def rx(frame):
-            if frame.can_id != PROBE_ID:
+            if frame.can_id != probe_id:
                 return orig_rx(frame)
             pid = frame.data[0] | (frame.data[1] << 8)
             s0 = nxt()
@@ -407,7 +433,7 @@ class C12:
                         continue
                     break
 
-        labels = [params["regime"]]
+        labels = [params["regime"], "api-" + params.get("sub_api", "ecu")]
         if any(0 <= e[4] < 10 for e in executed):
             labels.append("op-from-timer-callback")
         if any(e[2] == "rm" for e in executed):
